@@ -188,7 +188,8 @@ pub proof fn lemma_run_msgs_one<E, Q, R: CosmosRouter<E, Q>>(router: R, s0: St, 
 //@ fn src/app.rs :: App :: wasm_sudo
 //@   ret r
 //@   ensures [C01.wasm_sudo.err_unchanged,C02] r is Err ==> final(self).storage.view() == old(self).storage.view()
-//@   ensures [C01.wasm_sudo.sem,C02] spec_json_ok(*msg) ==> exists|a: Addr| (r, final(self).storage.view()) == commit_if_ok(old(self).router.wasm.sudo_sem(&old(self).router, old(self).storage.view(), old(self).block, WasmSudo { contract_addr: a, message: spec_json(*msg) }), old(self).storage.view())
+//@   ensures [C01.wasm_sudo.sem,C02] if spec_json_ok(*msg) { (r, final(self).storage.view()) == commit_if_ok(old(self).router.wasm.sudo_sem(&old(self).router, old(self).storage.view(), old(self).block, WasmSudo { contract_addr: spec_into::<U, Addr>(contract_addr), message: spec_json(*msg) }), old(self).storage.view()) } else { r is Err }
+//@   replace? "contract_addr: contract_addr.into()," => "contract_addr: vx_into::<U, Addr>(contract_addr),"
 //@   ensures [C01.wasm_sudo.frame] final(self).block == old(self).block && final(self).router == old(self).router
 //@   replace_re? "\\|write_cache, (?P<U>_vx\\d+)\\| \\{" => "|write_cache: &mut dyn Storage, \\g<U>: &dyn Storage| -> (cr: AnyResult<AppResponse>) ensures (cr, final(write_cache).view()) == router.wasm.sudo_sem(router, old(write_cache).view(), *block, msg) {"
 //@ end
@@ -230,12 +231,10 @@ pub proof fn lemma_run_msgs_one<E, Q, R: CosmosRouter<E, Q>>(router: R, s0: St, 
 //@   pick fn set_block
 //@ end
 //@ fn src/app.rs :: App :: set_block
-//@   requires [C14.app.set_block_pre] old(self).router.staking.queue_sem(&old(self).router, old(self).storage.view(), block).0 is Ok
 //@   ensures [C14.app.set_block,C01] final(self).block == block && final(self).router == old(self).router && final(self).storage.view() == old(self).router.staking.queue_sem(&old(self).router, old(self).storage.view(), block).1
 //@ end
 //@ fn src/app.rs :: App :: update_block
 //@   requires [C14.app.update_block_pre] forall|b: &mut BlockInfo| *b == old(self).block ==> #[trigger] action.requires((b,))
-//@   requires [C14.app.update_block_pre2] forall|b: &mut BlockInfo| (*b == old(self).block && #[trigger] action.ensures((b,), ())) ==> old(self).router.staking.queue_sem(&old(self).router, old(self).storage.view(), *final(b)).0 is Ok
 //@   ensures [C14.app.update_block,C01] final(self).router == old(self).router && exists|b: &mut BlockInfo| *b == old(self).block && #[trigger] action.ensures((b,), ()) && final(self).block == *final(b) && final(self).storage.view() == old(self).router.staking.queue_sem(&old(self).router, old(self).storage.view(), *final(b)).1
 //@ end
 }
